@@ -47,6 +47,6 @@ func TestC11(t *testing.T) {
 			})
 		}
 		e.feed(feedOpts{shortlexQ: 4, shortlexT: 6, sweepQ: 2500, sweepT: 60000, nestQ: 150, nestT: 4000,
-			mutQ: 200000, mutT: 4000000, nextByte: true, alignment: true}, s.input)
+			mutQ: 200000, mutT: 4000000, nextByte: true, alignment: true, boundaries: true}, s.input)
 	})
 }
